@@ -61,6 +61,14 @@ Proof. exact @print_mode_only_stdout. Qed.
 Print Assumptions C15_print_mode.
 
 (** Non-vacuity: a real-looking comment and csvpath. *)
+(** free comment text never makes the comment parser fail: for EVERY comment some set of fields comes out
+    (repaired defect D23; C15_key_without_value_refuted is its witness: "a: :") *)
+Theorem C15_comment_total : forall comment, exists fs, collect_metadata comment = Some fs.
+Proof. exact collect_metadata_total. Qed.
+Print Assumptions C15_comment_total.
+Theorem C15_key_without_value_refuted : collect_metadata_d23 [97; 58; 32; 58] = None /\ collect_metadata [97; 58; 32; 58] = Some [([97], None)].
+Proof. exact key_without_value_refuted. Qed.
+
 Example C15_nonvacuous :
   (* ~ id: p1 return-mode: no-matches ~ $f[*][yes()] *)
   let cm := [32;105;100;58;32;112;49;32;114;101;116;117;114;110;45;109;111;100;101;58;32;110;111;45;109;97;116;99;104;101;115;32] in
